@@ -434,7 +434,198 @@ def extract_method(root):
     return n
 
 
+def _apply(root, make_transformer):
+    n = 0
+    for p in _py_files(root):
+        src = open(p).read()
+        if not src.strip():
+            continue
+        tree = ast.parse(src)
+        tr = make_transformer()
+        tree = tr.visit(tree)
+        if getattr(tr, 'count', 0):
+            open(p, 'w').write(ast.unparse(ast.fix_missing_locations(tree)) + '\n')
+            n += 1
+    return n
+
+
+def _neg(test):
+    if isinstance(test, ast.UnaryOp) and isinstance(test.op, ast.Not):
+        return test.operand
+    if isinstance(test, ast.Compare) and len(test.ops) == 1:
+        inv = {ast.Is: ast.IsNot, ast.IsNot: ast.Is, ast.In: ast.NotIn, ast.NotIn: ast.In}
+        for a, b in inv.items():
+            if isinstance(test.ops[0], a):
+                return ast.Compare(left=test.left, ops=[b()], comparators=test.comparators)
+    return ast.UnaryOp(op=ast.Not(), operand=test)
+
+
+class _SwapBranches(ast.NodeTransformer):
+    """`if c: A else: B` -> `if not c: B else: A` (both branches present, no elif chain on either side)"""
+    count = 0
+
+    def visit_If(self, node):
+        self.generic_visit(node)
+        if node.orelse and not (len(node.orelse) == 1 and isinstance(node.orelse[0], ast.If)) and \
+                not (len(node.body) == 1 and isinstance(node.body[0], ast.If)):
+            self.count += 1
+            return ast.copy_location(ast.If(test=_neg(node.test), body=node.orelse, orelse=node.body), node)
+        return node
+
+
+def swap_if_branches(root):
+    """every two-armed if statement with its test negated and its arms exchanged"""
+    return _apply(root, _SwapBranches)
+
+
+class _WhileTrue(ast.NodeTransformer):
+    """`while c: B` (no else clause) -> `while True: if not c: break; B`"""
+    count = 0
+
+    def visit_While(self, node):
+        self.generic_visit(node)
+        if node.orelse or (isinstance(node.test, ast.Constant) and node.test.value is True):
+            return node
+        self.count += 1
+        guard = ast.If(test=_neg(node.test), body=[ast.Break()], orelse=[])
+        return ast.copy_location(ast.While(test=ast.Constant(value=True), body=[guard] + node.body, orelse=[]), node)
+
+
+def while_true_break(root):
+    """loop conditions moved into a leading `if not c: break` (a `continue` in the body re-tests the condition in both forms)"""
+    return _apply(root, _WhileTrue)
+
+
+class _CondExprToIf(ast.NodeTransformer):
+    """`T = a if c else b` / `return a if c else b` -> the if / else statement"""
+    count = 0
+
+    def _stmt(self, node, mk):
+        v = node.value
+        if isinstance(v, ast.IfExp):
+            self.count += 1
+            return ast.copy_location(ast.If(test=v.test, body=[mk(v.body)], orelse=[mk(v.orelse)]), node)
+        return node
+
+    def visit_Assign(self, node):
+        if len(node.targets) == 1 and isinstance(node.targets[0], ast.Name):
+            return self._stmt(node, lambda e: ast.Assign(targets=[ast.Name(id=node.targets[0].id, ctx=ast.Store())], value=e))
+        return node
+
+    def visit_Return(self, node):
+        if node.value is not None:
+            return self._stmt(node, lambda e: ast.Return(value=e))
+        return node
+
+    def visit_Lambda(self, node):
+        return node
+
+
+def conditional_expression_to_statement(root):
+    """conditional expressions in plain assignments and returns written as if / else statements"""
+    return _apply(root, _CondExprToIf)
+
+
+class _DictCalls(ast.NodeTransformer):
+    """`dict(a=x, b=y)` -> `{'a': x, 'b': y}` (keyword-only calls of the builtin; evaluation order is the same)"""
+    count = 0
+
+    def visit_Call(self, node):
+        self.generic_visit(node)
+        if isinstance(node.func, ast.Name) and node.func.id == 'dict' and not node.args and node.keywords and all(k.arg for k in node.keywords):
+            self.count += 1
+            return ast.copy_location(ast.Dict(keys=[ast.Constant(value=k.arg) for k in node.keywords], values=[k.value for k in node.keywords]), node)
+        return node
+
+
+def dict_calls_to_literals(root):
+    """dict(k=v, ...) written as a dict display"""
+    return _apply(root, _DictCalls)
+
+
+class _KeywordArgs(ast.NodeTransformer):
+    """positional arguments of calls `self._m(...)` to private methods defined exactly once in the package become keyword arguments
+    (callee without *args, call without starred arguments; order of evaluation unchanged)"""
+    count = 0
+
+    def __init__(self, sigs):
+        self.sigs = sigs
+
+    def visit_Call(self, node):
+        self.generic_visit(node)
+        f = node.func
+        if isinstance(f, ast.Attribute) and isinstance(f.value, ast.Name) and f.value.id == 'self' and f.attr in self.sigs and node.args and \
+                not any(isinstance(a, ast.Starred) for a in node.args) and not any(k.arg is None for k in node.keywords):
+            params = self.sigs[f.attr]
+            if len(node.args) <= len(params) and not (set(params[:len(node.args)]) & {k.arg for k in node.keywords}):
+                kws = [ast.keyword(arg=p, value=a) for p, a in zip(params, node.args)]
+                self.count += 1
+                return ast.copy_location(ast.Call(func=f, args=[], keywords=kws + node.keywords), node)
+        return node
+
+
+def keyword_arguments_for_private_calls(root):
+    """self._helper(a, b) -> self._helper(x=a, y=b) for private methods with one definition and a plain parameter list"""
+    defs = {}
+    for p in _py_files(root):
+        src = open(p).read()
+        if not src.strip():
+            continue
+        for c in [n for n in ast.walk(ast.parse(src)) if isinstance(n, ast.ClassDef)]:
+            for m in c.body:
+                if isinstance(m, ast.FunctionDef) and m.name.startswith('_') and not m.name.startswith('__'):
+                    defs.setdefault(m.name, []).append(m)
+    sigs = {}
+    for nm, ms in defs.items():
+        if len(ms) != 1:
+            continue
+        m = ms[0]
+        a = m.args
+        static = any(isinstance(d, ast.Name) and d.id == 'staticmethod' for d in m.decorator_list)
+        if a.vararg or a.kwarg or a.posonlyargs or any(not isinstance(d, ast.Name) or d.id != 'staticmethod' for d in m.decorator_list):
+            continue
+        sigs[nm] = [x.arg for x in a.args][0 if static else 1:]
+    return _apply(root, lambda: _KeywordArgs(sigs))
+
+
+class _ReverseMethods(ast.NodeTransformer):
+    """methods of a class re-ordered (plainly decorated ones moved to the end in reverse order): definition order inside a class body
+    has no effect once every name used at class-definition time (decorators, defaults, class-level expressions) is defined before its use"""
+    count = 0
+
+    def visit_ClassDef(self, node):
+        self.generic_visit(node)
+        plain = ('staticmethod', 'classmethod', 'property', 'abstractmethod', 'contextmanager')
+        movable = [m for m in node.body if isinstance(m, ast.FunctionDef) and all(
+            (isinstance(d, ast.Name) and d.id in plain) for d in m.decorator_list)]
+        # names used by class-level statements / decorators / defaults must not be moved
+        used = set()
+        for st in node.body:
+            if st in movable:
+                for d in st.args.defaults + st.args.kw_defaults:
+                    if d is not None:
+                        used |= {x.id for x in ast.walk(d) if isinstance(x, ast.Name)}
+                continue
+            used |= {x.id for x in ast.walk(st) if isinstance(x, ast.Name)}
+            if isinstance(st, ast.FunctionDef):
+                used |= {x.value.id for d in st.decorator_list for x in ast.walk(d) if isinstance(x, ast.Attribute) and isinstance(x.value, ast.Name)}
+        movable = [m for m in movable if m.name not in used]
+        if len(movable) < 2:
+            return node
+        rest = [st for st in node.body if st not in movable]
+        node.body = rest + list(reversed(movable))
+        self.count += 1
+        return node
+
+
+def reverse_method_order(root):
+    """methods of every class defined in the opposite order"""
+    return _apply(root, _ReverseMethods)
+
+
 VARIANTS = [('reformat', reformat), ('rename-locals', rename_locals), ('add-logging', add_logging),
             ('format-to-fstring', format_to_fstring), ('early-return-to-nested', early_return_to_nested),
             ('inline-single-use-locals', inline_single_use_locals), ('rename-private-methods', rename_private_methods),
-            ('extract-method', extract_method)]
+            ('extract-method', extract_method), ('swap-if-branches', swap_if_branches), ('while-true-break', while_true_break),
+            ('conditional-expression-to-statement', conditional_expression_to_statement), ('dict-calls-to-literals', dict_calls_to_literals),
+            ('keyword-arguments-for-private-calls', keyword_arguments_for_private_calls), ('reverse-method-order', reverse_method_order)]
